@@ -24,6 +24,56 @@ impl SimpleLogger {
     pub fn with_utc_timestamps(self) -> SimpleLogger {
         self
     }
+    /// `RUST_LOG` of the simulated process, when it names a plain level, replaces the default level
+    /// (per-module directives are not modelled: the stand-in has one level per process)
+    pub fn env(mut self) -> SimpleLogger {
+        let v = dsim::try_with(|w| {
+            let t = w.current?;
+            w.procs[w.tasks[t].proc].env.get("RUST_LOG").cloned()
+        })
+        .flatten();
+        if let Some(l) = v.and_then(|s| s.trim().parse::<LevelFilter>().ok()) {
+            self.level = l;
+        }
+        self
+    }
+    pub fn from_env() -> SimpleLogger {
+        SimpleLogger::new().with_level(LevelFilter::Error).env()
+    }
+    /// one level per simulated process: a module level can only raise what is recorded, never hide
+    /// records the default level lets through (more is scanned and judged, not less)
+    pub fn with_module_level(mut self, _target: &str, level: LevelFilter) -> SimpleLogger {
+        if level > self.level {
+            self.level = level;
+        }
+        self
+    }
+    pub fn with_target_levels(mut self, target_levels: std::collections::HashMap<String, LevelFilter>) -> SimpleLogger {
+        for l in target_levels.values() {
+            if *l > self.level {
+                self.level = *l;
+            }
+        }
+        self
+    }
+    pub fn with_threads(self, _threads: bool) -> SimpleLogger {
+        self
+    }
+    pub fn with_timestamps(self, _timestamps: bool) -> SimpleLogger {
+        self
+    }
+    pub fn without_timestamps(self) -> SimpleLogger {
+        self
+    }
+    pub fn with_local_timestamps(self) -> SimpleLogger {
+        self
+    }
+    pub fn with_colors(self, _colors: bool) -> SimpleLogger {
+        self
+    }
+    pub fn max_level(&self) -> LevelFilter {
+        self.level
+    }
     pub fn init(self) -> Result<(), SetLoggerError> {
         // VERIF_LOG_LEVEL override: the embedding program selects the verbosity
         let lvl = dsim::try_with(|w| w.knobs.get("log_level").copied()).flatten();
@@ -39,4 +89,24 @@ impl SimpleLogger {
         dsim::logger::set_level(level);
         Ok(())
     }
+}
+
+pub fn init() -> Result<(), SetLoggerError> {
+    SimpleLogger::new().init()
+}
+
+pub fn init_utc() -> Result<(), SetLoggerError> {
+    SimpleLogger::new().with_utc_timestamps().init()
+}
+
+pub fn init_with_env() -> Result<(), SetLoggerError> {
+    SimpleLogger::new().env().init()
+}
+
+pub fn init_with_level(level: log::Level) -> Result<(), SetLoggerError> {
+    SimpleLogger::new().with_level(level.to_level_filter()).init()
+}
+
+pub fn init_by_env() {
+    let _ = SimpleLogger::from_env().init();
 }
